@@ -47,8 +47,8 @@ CHECKS = {
             "TLC checks the transcribed grid generator (Grid.tla: count, distinctness, L1 bound, minimal n_units, injective basis map, selection rule) for every dim x sign pattern x grid_size; real GridSearch.fit with an exact learner is checked against TLC's exact payoff table of the whole hypothesis class",
             "property tier: lambda_vecs_ has grid_size distinct non-negative columns with L1 <= grid_limit; each predictor attains min_h error + lambda.gamma on the exact table (weighted group loss for BoundedGroupLoss); objectives_/gammas_ equal the table entries of the predictor's actual predictions; learner calls carry the relabel/reweight of their column in column order; best_idx_ minimises the trade-off; predict/predict_proba delegate. Refinement tier: the real _GridGenerator's integer lattice equals Grid.tla's for every enumerated configuration",
             "float multipliers: inequalities in float64 (1e-9) over exact table data; datasets where no event is shared by two groups (no free constraint direction) and grid points with all-zero weights are skipped as preconditions and listed in the evidence", "5/C09"),
-    "C08": (["Game.tla", "EG.tla", "EGTrace.tla", "Moments.tla"],
-            "TLC proves the certificate => guarantees theorem on a bounded family of rational games (Game.tla) and the early-stop/selection invariants on all bounded protocols (EG.tla); real EG fits with an exact learner are checked against TLC's exact payoff tables and every recorded iteration trace is validated by TLC against EGTrace.tla",
+    "C08": (["Game.tla", "EG.tla", "EGInd.tla", "EGTrace.tla", "Moments.tla"],
+            "Apalache proves the stop rule's certification clauses (early stop only after an iteration with gap < nu and t >= 5; minimum gap < nu at an early stop; no overrun) inductive for unbounded max_iter / nu / gap values (EGInd.tla; the mapped invariant IndMapped is also checked by TLC on EG.tla and along every validated trace); TLC proves the certificate => guarantees theorem on a bounded family of rational games (Game.tla) and the early-stop/selection invariants on all bounded protocols (EG.tla); real EG fits with an exact learner are checked against TLC's exact payoff tables and every recorded iteration trace is validated by TLC against EGTrace.tla",
             "for each fit: weights_ is a distribution over predictors_; the TRUE duality gap of the returned Q against the multiplier recorded for the returned iteration (min over the whole hypothesis class on the exact table) is <= best_gap_; error(Q) <= OPT + 2 best_gap_ (OPT by LP over the table) and each constraint <= bound + (1+2 best_gap_)/B when feasible; stopping before max_iter implies best_gap_ < nu; the trace (oracle results, Q_EG = Qsum/(t+1) exactly, EG/LP source by gap comparison, stop rule, last-minimum selection) is accepted by the trace spec",
             "float64 inequalities (slack 1e-7) over exact table data; gaps as dense ranks; exhaustive small tables plus TLC-simulated larger ones (N<=12) for long runs without the LP step; fits hitting the 0/0 weight normalisation are skipped and listed; cost-sensitive objective at refinement tier", "5/C08"),
     "C10": (["Threshold.tla", "EG.tla", "Moments.tla"],
